@@ -6,6 +6,7 @@ import random
 import z3
 
 from . import bridge as bridge_mod
+from . import cliagree
 from . import driver
 from .checks_common import generic_replay
 from .refext import closure, reference, replace_placeholders, ug_info
@@ -188,6 +189,9 @@ def generate(tier, seed):
                 continue
             items.append({'family': 'repo-examples', 'task': t, 'flags': (s, e), 'label': '%s simplify=%s eq-break=%s' % (t[0], s, e),
                           'timeout_ms': 20000 if tier == 'thorough' else 5000, 'no_retry': True})
+    for t in [t for t in TASKS if t[0] in ('private-left', 'private-clash', 'zero-axioms-forward', 'false-placeholder-integer',
+                                           'spec-equivalence-under-implication', 'constraint-on-private-atom-false')] + REFUSABLE[:2]:
+        items.append({'family': 'cli-agreement', 'task': t, 'cli': True, 'label': 'cli ' + t[0]})
     return items
 
 
@@ -334,8 +338,24 @@ def behaviour_link(kind, left_tree, right_tree, ug_tree, probs, d, aliases, left
     return out
 
 
+def check_cli(b, item):
+    from .c03 import flags_of
+    name, kind, left, right, ug = item['task']
+    first = 'zz_first.lp' if kind == 'program' else 'zz_first.spec'
+    out = []
+    for direction, dec, simp, eqb in (('universal', 'sequential', True, True), ('forward', 'independent', False, False),
+                                      ('backward', 'sequential', True, False), ('forward', 'sequential', True, True)):
+        req = ('external_task', Q(kind), Q(left), Q(right), Q(ug), Q(''), Q(direction), Q(dec), Q(str(simp).lower()), Q(str(eqb).lower()), Q('false'))
+        out.append(cliagree.verify(b, item['family'], '%s#%s-%s-%s-%s' % (name, direction, dec, simp, eqb), 'external',
+                                   {first: left + '\n', 'aa_second.lp': right + '\n', 'mm_guide.ug': ug + '\n'},
+                                   [first, 'aa_second.lp', 'mm_guide.ug'], req, flags_of(direction, dec, simp, eqb)))
+    return out
+
+
 def check_item(item):
     b = bridge_mod.get()
+    if item.get('cli'):
+        return check_cli(b, item)
     task = item['task']
     name, kind, left, right, ug = task
     base = {'family': item['family'], 'input_key': name, 'twin': item.get('twin', False)}
@@ -470,7 +490,7 @@ def replay(r):
 
 def describe(tier):
     return {
-        'rule': 'tasks generated from rule pools (with confusable names: a private predicate named like a renamed one, a 0-ary private predicate that is also a constant, single-atom constraints); 50 hand-written tasks (program vs program and specification vs program; private predicates on either side '
+        'rule': 'CLI agreement: 8 tasks x 4 flag sets through `anthem verify --equivalence external --save-problems` must print/save byte for byte what the library call returns; tasks generated from rule pools (with confusable names: a private predicate named like a renamed one, a 0-ary private predicate that is also a constant, single-atom constraints); 50 hand-written tasks (program vs program and specification vs program; private predicates on either side '
                 'and clashing on both, a program predicate literally named like a renamed private, integer/general/symbol '
                 'placeholders inside arithmetic and as plain terms, user-guide assumptions over inputs, choice rules and '
                 'constraints, outputs missing from one side, annotated directions) plus every task under '
